@@ -35,6 +35,32 @@ def gen_query(rnd, f):
     return q
 
 
+def gen_straddle_case(rnd):
+    """targeted family: metrics of two models separated by a many_to_one hop (the multi-fact form), grouped by ONE time dimension at week
+    AND month / quarter / year, on data where one ISO week lies in two months (column values 0, 1 -> January, 2 -> February, same week): the
+    groups are the distinct (week, month) pairs and every sub-result must be matched on BOTH columns"""
+    for _ in range(60):
+        f = jg.gen_forest(rnd, nmodels=rnd.randint(2, 3))
+        links = [(c, p) for (c, p, ty, comp) in f["links"] if ty == "m2o" and len(f["models"][c]["rows"]) >= 3 and len(f["models"][p]["rows"]) >= 2]
+        if not links:
+            continue
+        c, p = rnd.choice(links)
+        child, parent = f["models"][c], f["models"][p]
+        for m in (child, parent):
+            for i, r in enumerate(m["rows"]):
+                r[jg.CI["c1"]] = [0, 2, 1, 2, None, 0][i % 6]
+        tm = rnd.choice([child, parent])["name"]
+        grans = ["week", rnd.choice(["month", "month", "quarter", "year"])]
+        rnd.shuffle(grans)
+        dims = [(tm, jg.tdim2(g)) for g in grans]
+        if rnd.random() < 0.3:
+            dims.append((rnd.choice([child, parent])["name"], jg.jcol("s0")))
+        mets = [(child["name"], rnd.choice(["sum", "count", "max"]), jg.jcol("c0"), []), (parent["name"], rnd.choice(["sum", "count", "min"]), jg.jcol("c0"), [])]
+        return f, dict(dims=dims, mets=mets, filters=[])
+    f = jg.gen_forest(rnd, nmodels=2)
+    return f, gen_query(rnd, f)
+
+
 def run_impl(f, q, metric_idx=None, extra_filters=(), **kw):
     """joint query (metric_idx None) or the query with only metric number metric_idx; returns {colname: ...} rows as dicts"""
     dbm, mbm, drefs, mrefs = c02.field_names(q)
@@ -71,6 +97,25 @@ def values_equal(a, b):
     if isinstance(a, (int, float)) and isinstance(b, (int, float)):
         return abs(float(a) - float(b)) <= 1e-9 * max(1.0, abs(float(a)))
     return a == b
+
+
+def joint_vs_alone(f, q):
+    """the property's observation on one case: the joint query against the full outer join of the single-metric queries.  -> (ok, detail)"""
+    alone = []
+    for j in range(len(q["mets"])):
+        cols, rows, _ = run_impl(f, q, j)
+        a = as_map(q, cols, rows)
+        if a is None:
+            return True, "a single-metric query has duplicate groups (outside this comparison)"
+        alone.append(a)
+    cols, rows, sql = run_impl(f, q)
+    joint = as_map(q, cols, rows)
+    expected = {}
+    for j, a in enumerate(alone):
+        for k, vals in a.items():
+            expected.setdefault(k, {})["m%d" % j] = vals["m%d" % j]
+    ok = joint is not None and set(joint) == set(expected) and all(values_equal(joint[k].get("m%d" % j), expected[k].get("m%d" % j)) for k in expected for j in range(len(q["mets"])))
+    return ok, {"joint_rows": [list(map(str, r)) for r in rows[:12]], "expected": {str(k): v for k, v in list(expected.items())[:12]}, "sql": sql[-900:]}
 
 
 def slice_checks(c, f, q, rnd, stats):
@@ -136,6 +181,7 @@ def run(c):
     while len(cases) < n:
         f = jg.gen_forest(c.rng, nmodels=c.rng.randint(2, 4))
         cases.append((f, gen_query(c.rng, f)))
+    cases += [gen_straddle_case(c.rng) for _ in range(max(8, n // 8))]
     cf = jg.corpus_forest()
     cases[:0] = [
         (cf, dict(dims=[], mets=[("ma", "count", None, []), ("mb", "sum", jg.jcol("c0"), [])], filters=[("mb", ("cmp", "=", jg.jcol("s0"), sg.lit("a")))])),   # K1
